@@ -216,8 +216,8 @@ def WF : Expr → Prop
   | slc x p s _ _ _ => WF x ∧ 0 < s ∧ p + s ≤ x.size
   | comp s _ ps => 0 < s ∧ Tiles s ps ∧ WFParts ps
   | tst t l r s _ => 0 < s ∧ WF t ∧ WF l ∧ WF r ∧ t.size = 1 ∧ l.size = s ∧ r.size = s
-  | op o l r s _ _ =>
-      0 < s ∧ WF l ∧ WF r ∧
+  | op o l r s _ p =>
+      0 < s ∧ o.type ≤ p ∧ WF l ∧ WF r ∧
       (if o.type = 4 then s = 1 ∧ l.size = r.size
        else if o.type = 8 then s = l.size
        else l.size = r.size ∧ s = if o = Op.mul2 then 2 * l.size else l.size)
